@@ -59,6 +59,13 @@ def check(ctx):
                 if b.path([osw.bb], [sw.bb for sw, _ in late]) is not None:
                     for lab in osw.edge_for_value(0):
                         other.add((osw.bb, lab))
+            # ... which holds only if the height match really yields Some(height) on this arm (checked, not assumed)
+            osws = [osw.bb for osw in ctx.discr_switches(b, "core::option::Option", "call:fuel_tx::tx_pointer::TxPointer::block_height")]
+            arm_blocks = b.reach(starts, cut_blocks=osws + [bb2 for (bb2, _, _) in sws[1:]])
+            opts = [s_["rv"].get("variant") for bb_, j_, s_ in b.stmts() if bb_ in arm_blocks and bb_ in b.live and s_["k"] == "assign" and s_["rv"]["k"] == "agg"
+                    and s_["rv"].get("adt") == "core::option::Option"]
+            ctx.add(f"1.{v}-has-a-preconfirmation-height", "MIRROR", opts == ["Some"], f"the height looked at by the late test is Some(tx_pointer.block_height()) for a {v} status (found {opts})",
+                    sites=[f"bb{first_bb}"], site_key=v + ":height")
             p = b.path(starts, [c.bb for c in effects], cut_edges=set(late_false) | other) if late_false else [0]
             ctx.add(f"1.{v}-effects-only-if-not-late", "GUARD", p is None,
                     f"a {v} preconfirmation for a height at or below the canonical tip never changes the pool",
@@ -79,6 +86,19 @@ def check(ctx):
         u = F.unit(f"{PW}::process_block")
         ex = u.calls_to(f"{EO}::new_executed_transaction")
         ctx.expect_sites("2.executed-outputs-settled", ex, exactly=1, what="new_executed_transaction per status")
+        # entries of heights above the imported block must survive: the only removal idiom recognised is
+        # `remove(&h)` for keys h taken from `range(..=block_height)`
+        rm = [c for x in u.bodies for c in x.calls if c.bb in x.live and c.path.startswith("alloc::collections::btree::map::") and
+              c.name in ("remove", "remove_entry", "pop_first", "pop_last", "retain", "split_off", "clear", "extract_if", "first_entry", "last_entry", "append") and
+              atom_match(Origins(x, 1).atoms(c.args[0]), f"field:{PW}.tentative_preconfs")]
+        unbounded = [c for c in rm if c.name != "remove"]
+        ctx.add("2.future-heights-kept", "GUARD", bool(rm) and not unbounded,
+                "tentative preconfirmations are dropped only by remove(&h) for h in range(..=block_height)" +
+                (f"; {[c.name + ' at ' + c.where() for c in unbounded]} takes entries out of the table without that bound: a preconfirmation for a height above the imported block is lost "
+                 "(its outputs stay usable and its inputs stay spent although no block settles it)" if unbounded else ""),
+                sites=[c.where() for c in rm], site_key="rm")
+        for i, c in enumerate(c for c in rm if c.name == "remove"):
+            ctx.arg_origin(f"2.removed-height-{i}-from-stale-range", c, 1, "call:alloc::collections::btree::map::BTreeMap::range", depth=3)
         rng = ctx.one_call(b, "alloc::collections::btree::map::BTreeMap::range")
         ctx.arg_origin("2.stale-range-up-to-block-height", rng, 1, "call:fuel_core_types::blockchain::header::BlockHeader::height", depth=1)
         o = Origins(b, 0)
